@@ -22,116 +22,60 @@ class _Rows:
         self.R, self.a = R, a
 
 
-def interpret_rotation(func, ri_syms, rixh_syms, R, RX):
-    """returns (w: {idx: expr}, wXH: {idx: expr}) from the combos loop of w_withquaternion"""
+def packed_combos():
+    """specification of the packed order: w.view(10, 10)[pack(kk, ll), pack(mm, nn)] with pack(k >= l) = k (k + 1) / 2 + l (the order the Fock builders read, C06-R12)"""
+    return [(kk, ll, mm, nn) for kk in range(4) for ll in range(kk + 1) for mm in range(4) for nn in range(mm + 1)]
+
+
+def interpret_w(repo, ri_syms, rixh_syms, R, RX):
+    """abstract interpretation (sa.npsym) of w_withquaternion on three pairs -- heavy-heavy, heavy-H, H-H -- with symbolic local integrals, frames and core
+    charges.  Returns dict(w=[100 expr], wXH=[10 expr], e1b=(3,4,4), e2a=(3,4,4), tore=symbols by atomic number, wHH=symbol).  Independent of how the routine
+    is written (loops, counters, helper functions, order of statements)."""
+    import numpy as np
     import sympy as sp
-    loops = [st for st in func.body if isinstance(st, ast.For) and isinstance(st.target, ast.Tuple) and len(st.target.elts) == 4]
-    if len(loops) != 1:
-        raise AnalysisError("w_withquaternion: combos loop not found")
-    loop = loops[0]
-    names = [e.id for e in loop.target.elts]
-    w, wxh = {}, {}
-    env = {"idx": 0, "idxXH": 0}
-    # row views and unbound integral tuples are bound from their definitions in the code (r0 = rot[:, 0], ri_s = ri.unbind(dim=-1), ...)
-    mats = {"rot": R, "rotXH": RX}
-    vecs = {"ri": list(ri_syms), "riXH": list(rixh_syms)}
-    for st in func.body:
-        if st is loop:
-            break
-        if not (isinstance(st, ast.Assign) and len(st.targets) == 1 and isinstance(st.targets[0], ast.Name)):
-            continue
-        v = st.value
-        if isinstance(v, ast.Subscript) and isinstance(v.value, ast.Name) and v.value.id in mats:
-            elts = v.slice.elts if isinstance(v.slice, ast.Tuple) else [v.slice]
-            ints = [e.value for e in elts if isinstance(e, ast.Constant) and isinstance(e.value, int)]
-            full = [e for e in elts if isinstance(e, ast.Slice) and e.lower is None and e.upper is None]
-            if len(ints) == 1 and len(elts) >= 2 and isinstance(elts[0], ast.Slice) and isinstance(elts[1], ast.Constant) and len(ints) + len(full) == len(elts):
-                env[st.targets[0].id] = _Rows(mats[v.value.id], ints[0])
-        elif isinstance(v, ast.Call) and callee_attr(v) == "unbind" and isinstance(v.func.value, ast.Name) and v.func.value.id in vecs:
-            dim = [kw.value for kw in v.keywords if kw.arg == "dim"] or list(v.args)
-            if dim and norm(dim[0]) in ("-1", "1"):
-                env[st.targets[0].id] = vecs[v.func.value.id]
-    n_rows = sum(isinstance(x, _Rows) for x in env.values())
-    if n_rows < 6 or sum(isinstance(x, list) for x in env.values()) < 2:
-        raise AnalysisError(f"w_withquaternion: row views / unbound integral tuples not recognised ({n_rows} row views)")
+    from .npsym import NpSym
+    m = repo.mod("seqm/seqm_functions/two_elec_two_center_int.py")
+    func = m.func("w_withquaternion")
+    ZX = 6
+    ni, nj = np.array([8, ZX, 1], dtype=np.int64), np.array([ZX, 1, 1], dtype=np.int64)      # an O-C, a C-H and an H-H pair: all core charges are distinct symbols
+    rot = np.empty((3, 3, 3), dtype=object)
+    for a in range(3):
+        for b in range(3):
+            rot[0, a, b], rot[1, a, b], rot[2, a, b] = R[a][b], RX[a][b], sp.Symbol(f"Rhh{a}{b}")
+    tore = np.array([sp.Symbol(f"Z{z}") for z in range(9)], dtype=object)
+    wHH = np.array([sp.Symbol("wHH")], dtype=object)
+    vals = {"mol": None, "tore": tore, "ni": ni, "nj": nj, "xij": np.array([[sp.Symbol(f"x{p}{c}") for c in range(3)] for p in range(3)], dtype=object),
+            "riXH": np.array([list(rixh_syms)], dtype=object), "ri": np.array([list(ri_syms)], dtype=object), "wHH": wHH}
+    try:
+        args = [vals[a.arg] for a in func.args.args]
+    except KeyError as e:
+        raise AnalysisError(f"w_withquaternion: parameter {e} has no meaning known to the rotation oracle")
+    seen = {}
 
-    def ev(e):
-        if isinstance(e, ast.Constant):
-            return sp.Integer(e.value) if isinstance(e.value, int) and not isinstance(e.value, bool) else e.value
-        if isinstance(e, ast.Name):
-            if e.id in env:
-                return env[e.id]
-            raise AnalysisError(f"rotation: unbound {e.id}")
-        if isinstance(e, ast.UnaryOp) and isinstance(e.op, ast.USub):
-            return -ev(e.operand)
-        if isinstance(e, ast.BinOp):
-            a, b = ev(e.left), ev(e.right)
-            if isinstance(e.op, ast.Add):
-                return a + b
-            if isinstance(e.op, ast.Sub):
-                return a - b
-            if isinstance(e.op, ast.Mult):
-                return a * b
-            raise AnalysisError(f"rotation: operator {norm(e)}")
-        if isinstance(e, ast.Subscript):
-            base = ev(e.value) if not (isinstance(e.value, ast.Name) and e.value.id in ("w", "wXH")) else e.value.id
-            sl = e.slice
-            if isinstance(base, list):
-                return base[int(ev(sl))]
-            if isinstance(base, _Rows):
-                last = sl.elts[-1] if isinstance(sl, ast.Tuple) else sl
-                return base.R[base.a][int(ev(last))]
-            if base in ("w", "wXH"):
-                last = sl.elts[-1] if isinstance(sl, ast.Tuple) else sl
-                return (w if base == "w" else wxh).get(int(ev(last)), sp.Integer(0))
-        raise AnalysisError(f"rotation: expression {norm(e)[:60]}")
+    def frame(v, *a, **k):
+        seen["v"] = v
+        if a or k:
+            raise AnalysisError("w_withquaternion: the energy path requests the frame derivative")
+        return rot.copy()
+    I = NpSym(repo, stubs={"rotate_with_quaternion": frame})
+    res = I.call_function(m, func, args)
+    if not (isinstance(res, tuple) and len(res) == 4):
+        raise AnalysisError("w_withquaternion: result is not (e1b, e2a, wXH, w)")
+    e1b, e2a, wXH, w = res
+    if getattr(w, "size", 0) != 100 or getattr(wXH, "size", 0) != 10 or getattr(e1b, "shape", None) != (3, 4, 4) or getattr(e2a, "shape", None) != (3, 4, 4):
+        raise AnalysisError("w_withquaternion: unexpected result shapes")
+    v = seen.get("v")
+    frame_vec_ok = v is not None and getattr(v, "shape", None) == (3, 3) and all(sp.expand(v[p, c] + vals["xij"][p, c]) == 0 for p in range(3) for c in range(3))
+    return {"w": list(w.reshape(-1)), "wXH": list(wXH.reshape(-1)), "e1b": e1b, "e2a": e2a, "tore": tore, "wHH": wHH[0], "frame_vector_is_minus_xij": frame_vec_ok, "Z": (ZX, 1), "ni": ni, "nj": nj,
+            "module": m, "func": func}
 
-    def test(t):
-        if isinstance(t, ast.Compare) and len(t.ops) == 1:
-            a, b = ev(t.left), ev(t.comparators[0])
-            op = t.ops[0]
-            return {ast.Eq: a == b, ast.NotEq: a != b, ast.Lt: a < b, ast.Gt: a > b, ast.LtE: a <= b, ast.GtE: a >= b}[type(op)]
-        raise AnalysisError(f"rotation: test {norm(t)}")
 
-    def store(target, value, add=False):
-        base = target.value.id
-        sl = target.slice
-        last = sl.elts[-1] if isinstance(sl, ast.Tuple) else sl
-        i = int(ev(last))
-        d = w if base == "w" else wxh
-        d[i] = (d.get(i, sp.Integer(0)) + value) if add else value
-
-    def block(stmts):
-        for st in stmts:
-            if isinstance(st, ast.If):
-                block(st.body if test(st.test) else st.orelse)
-            elif isinstance(st, ast.Assign) and len(st.targets) == 1:
-                t = st.targets[0]
-                if isinstance(t, ast.Name):
-                    env[t.id] = ev(st.value)
-                elif isinstance(t, ast.Subscript) and isinstance(t.value, ast.Name) and t.value.id in ("w", "wXH"):
-                    store(t, ev(st.value))
-                else:
-                    raise AnalysisError(f"rotation: store {norm(t)}")
-            elif isinstance(st, ast.AugAssign) and isinstance(st.target, ast.Name):
-                env[st.target.id] = env[st.target.id] + ev(st.value)
-            elif isinstance(st, ast.Expr) and isinstance(st.value, ast.Call) and callee_attr(st.value) == "add_" and isinstance(st.value.func.value, ast.Subscript):
-                store(st.value.func.value, ev(st.value.args[0]), add=True)
-            elif isinstance(st, ast.Expr) and isinstance(st.value, ast.Constant):
-                continue
-            else:
-                raise AnalysisError(f"rotation: statement {norm(st)[:60]}")
-    combos = [(kk, ll, mm, nn) for kk in range(4) for ll in range(kk + 1) for mm in range(4) for nn in range(mm + 1)]
-    # the comprehension in the source must be this enumeration
-    cdef = [st for st in func.body if isinstance(st, ast.Assign) and norm(st.targets[0]) == "combos"]
-    want = "[(kk,ll,mm,nn)forkkinrange(4)forllinrange(kk+1)formminrange(4)fornninrange(mm+1)]"
-    if not cdef or norm(cdef[0].value).replace(" ", "") != want:
-        raise AnalysisError("w_withquaternion: combos enumeration changed")
-    for c in combos:
-        for nm, v in zip(names, c):
-            env[nm] = v
-        block(loop.body)
-    return w, wxh, combos
+def interpret_rotation(func, ri_syms, rixh_syms, R, RX, repo=None):
+    """(w: {idx: expr}, wXH: {idx: expr}, combos) -- kept for the callers; the interpretation itself is interpret_w"""
+    if repo is None:
+        raise AnalysisError("interpret_rotation needs the repository")
+    r = interpret_w(repo, ri_syms, rixh_syms, R, RX)
+    return dict(enumerate(r["w"])), dict(enumerate(r["wXH"])), packed_combos()
 
 
 def random_rotation(rng):
